@@ -660,3 +660,46 @@ def c05(run):
     run.assumptions = ['acceptance is only demanded for cells the grammar marks "yes" (known ids, canonical encoding); all other cells are checked conditionally on acceptance',
                        'MPI and octet-string contents are random: algorithm-specific validity (curve points) comes from real key material tokens']
     run.notes['trusted_base'] = TRUSTED
+
+
+# ---------------------------------------------------------------------------
+# C02  signature soundness
+
+def sigverify_cfg(align=True, issuer=True, saltlen=True, left16=True, meta=True, salt=True, invs='Sound Complete'):
+    b = lambda x: 'TRUE' if x else 'FALSE'
+    return (f"CONSTANTS\n  ChkAlign = {b(align)}\n  ChkIssuer = {b(issuer)}\n  ChkSaltLen = {b(saltlen)}\n  ChkLeft16 = {b(left16)}\n"
+            f"  HashMeta = {b(meta)}\n  HashSalt = {b(salt)}\nSPECIFICATION Spec\nINVARIANTS {invs}\nCHECK_DEADLOCK FALSE\n")
+
+
+@prop('C02', 'exploration')
+def c02(run):
+    run.mc('MCSigVerify', sigverify_cfg(), name='mc', workers=2)
+    # non-vacuity: each ingredient of the verifier is the deciding one somewhere
+    run.mc('MCSigVerify', sigverify_cfg(meta=False), name='sens_metadata_not_hashed', workers=2, expect_violation='Sound')
+    run.mc('MCSigVerify', sigverify_cfg(salt=False, saltlen=False), name='sens_salt_not_bound', workers=2, expect_violation='Sound')
+    run.mc('MCSigVerify', sigverify_cfg(align=False, issuer=False), name='sens_no_issuer_no_alignment', workers=2, expect_violation='Sound')
+    # the canonical text form that decides "content_eol" (C14's model)
+    run.mc('MCTextCanon', textcanon_cfg(run.q(6, 8), [2, 3]), name='mc_textcanon')
+    g = run.mc('MCSigVerify', sigverify_cfg(invs='GenCase'), name='gen', workers=1, count=False)
+    cases = g.cases
+    if run.replay and run.replay.get('source_case'):
+        cases = [run.replay['source_case']]
+    for i, c in enumerate(cases):
+        c['ci'] = i
+    body, summary, oks = run.harness('c02', cases, timeout=3300)
+    run.distinct_nontrivial = summary['extra']['nontrivial']
+    run.traces_validated = summary['evaluations']
+    run.rule = ('SigVerify.tla models a signature symbolically (digest = injective function of salt, canonical content / key framing, version, '
+                'type, algorithms, hashed area; primitive accepts iff key material and digest are the signed ones) and the verifier as the ordered '
+                'checks of Signature::verify*; TLC checks soundness and completeness for 7 signature kinds x v4|v6 x 21 perturbations and, with one '
+                'ingredient switched off at a time, that each is decisive. TLC emits every cell with its verdict; the harness realises it on genuine '
+                'artefacts (Ed25519 legacy v4, Ed25519 v6, ECDSA P-256, RSA-2048; thorough + ECDSA P-384 v6, Ed448) with FIELD-level perturbation '
+                '(Signature::from_config round trip), content edits, other keys, the same key material under another version or identity, and calls '
+                'every applicable entry point (Signature::verify*, DetachedSignature::verify, Message::verify with the inline signature replaced, '
+                'CleartextSignedMessage::verify, SignedPublicKey::verify_bindings with the self-signature replaced); plus every single-bit flip of a '
+                '64-octet content and of every octet of the signature packet for Ed25519 v4 and v6. non-trivial = realised cells + constrained flips')
+    run.add_samples([c for c in cases if c['perturbation'] in ('hashed_sub_critical', 'key_same_material_other_version')][:2])
+    run.add_samples(oks[:2])
+    run.assumptions = [SYMBOLIC, 'changes confined to the unhashed area and to MPI bit-count octets are not constrained (DontCare)',
+                       'negligible-probability events (a flipped bit that keeps a 16-bit prefix and a valid signature) are outside the model']
+    run.notes['trusted_base'] = TRUSTED
